@@ -133,6 +133,7 @@ def search(ctx):
 
 
 def replay(ctx, rp):
+    common.import_eups()
     case = rp["input"]
     if "guard_map" in case:
         fresh = c15_guardmap.summarise(c15_guardmap.extract(common.REPO))
